@@ -101,4 +101,20 @@ def f(k):
     seen = [a]
     return [a == b, a != b, a == c, b in seen, c in seen, c not in seen, a == 'x::y', p == q, p in [q], p in [q, p], [b] == [a]]
 """),
+    (4, """
+class Tree:
+    def __init__(self, kids):
+        self.kids = list(kids)
+    @property
+    def size(self):
+        return 1 + sum(k.size for k in self.kids)
+    @property
+    def is_leaf(self):
+        return not self.kids
+    def leaves(self):
+        return [self] if self.is_leaf else [x for k in self.kids for x in k.leaves()]
+def f(n):
+    t = Tree([Tree([]), Tree([Tree([]) for _ in range(n)])])
+    return [t.size, t.is_leaf, len(t.leaves()), t.kids[0].is_leaf]
+"""),
 ]
